@@ -79,7 +79,14 @@ func c03Stmts(p c03Params) []*Stmt {
 			upd("k", int32(31), 10),   // 12 key change of a row the same transaction may have inserted
 			// 13 two-column SET: the key is named but keeps its value while the other column shrinks (the row is relocated)
 			&Stmt{Kind: "update", Table: "t", Set: []SetItem{{"k", int32(3)}, {"v", ""}}, Where: wh(3)},
+			// 14 multi-row update: with the reader's shared lock on row 3 it is refused half-way, after rows 1
+			// and 2 have been written (statement-level abort of a partially executed statement)
+			&Stmt{Kind: "update", Table: "t", Set: []SetItem{{"v", "m"}}, Where: And{Leaf{"k", ">=", int32(1)}, Leaf{"k", "<=", int32(3)}}},
 		)
+		if p.Seed != "page-full" {
+			// 15 multi-row delete through the sequential scan path
+			st = append(st, &Stmt{Kind: "delete", Table: "t", Where: ForceScan(Leaf{"k", "<=", int32(3)})})
+		}
 	}
 	st = append(st, del(10)) // delete of a row the same transaction may have inserted
 	return st
@@ -115,7 +122,7 @@ func c03Domain(td *TableDef, c ColDef) []any {
 	if c.Name == "k" {
 		return []any{int32(1), int32(2), int32(3), int32(10), int32(11), int32(30), int32(31)}
 	}
-	return []any{"a1", "a2", "a3", "b2", "n10", "again", "second", "own", ""}
+	return []any{"a1", "a2", "a3", "b2", "n10", "again", "second", "own", "m", ""}
 }
 
 func c03Cfg(p c03Params) *WorldCfg {
